@@ -85,6 +85,14 @@ package util
 //@   ensures [tail] samebase(result, b.buf[len(b.buf) - n:])
 //@   ensures [content] forall k int :: 0 <= k && k < len(old(b.buf)) - old(b.off) ==> b.buf[b.off + k] == old(b.buf)[old(b.off) + k]
 
+//@ func (*Buffer).WriteByte
+//@   props C16 C13
+//@   requires bwf(b)
+//@   ensures result == nil && bwf(b)
+//@   ensures [length] len(b.buf) - b.off == (len(old(b.buf)) - old(b.off)) + 1
+//@   ensures [appended] b.buf[len(b.buf) - 1] == c
+//@   ensures [content] forall k int :: 0 <= k && k < len(old(b.buf)) - old(b.off) ==> b.buf[b.off + k] == old(b.buf)[old(b.off) + k]
+
 // BufferPool.Get(n) returns n bytes (from the pool or freshly made); Put gives a buffer back.
 //@ func (*BufferPool).Get
 //@   trusted
